@@ -62,8 +62,67 @@ def dump_tvg(g) -> dict:
             'vars': [i for v in n.variants for i in ids_of(v.variant)],
             'out': sorted(ids[id(e.out_node)] for e in n.out_edges),
             'level': n.level, 'sub': n.subgraph_id,
+            # for the structural correspondence with Model/Tvg.lean (`G tvgbuild`): the reference
+            # range of the node (`seq.locations`: [first.ref.start, last.ref.end), number of
+            # matched locations; None for a null node) and the typed out-edges
+            'loc': None if n.seq is None else
+            ([int(n.seq.locations[0].ref.start), int(n.seq.locations[-1].ref.end), len(n.seq.locations)]
+             if n.seq.locations else [0, 0, 0]),
+            'null': n.seq is None,
+            'out_t': sorted((ids[id(e.out_node)], e.type) for e in n.out_edges),
         })
     return {'nodes': nodes, 'rfs': [ids.get(id(x)) for x in g.reading_frames]}
+
+
+SMALL_TYPES = ('SNV', 'RNAEditingSite', 'INDEL')
+_ETYPE = {'reference': 'r', 'variant_start': 's', 'variant_end': 'e'}
+
+
+def canon_tvg(d: dict, idmap: Dict[str, int]) -> str:
+    """the dumped transcript variant graph up to node renaming, in the form `G tvgbuild` prints the
+    graph of the Lean model (`Driver/G.lean`, `tvgCanon`): nodes keyed by frame / kind / reference
+    range or record ids / sequence, typed edges as pairs of keys, both sorted"""
+    keys = {}
+    for n in d['nodes']:
+        rf = n['rf']
+        if n['null']:
+            k = 'R' if rf is None else f'F{rf}'
+        elif n['vars']:
+            k = f"{rf}:v{'+'.join(str(idmap.setdefault(v, len(idmap))) for v in n['vars'])}:{n['seq']}"
+            if n['loc'][2]:
+                k += f"@{n['loc'][0]}-{n['loc'][1]}"      # a variant node with a location: not in scope
+        else:
+            a, b, k_ = n['loc']
+            k = f"{rf}:{a}-{b}:{n['seq']}" if k_ == 1 else \
+                (f"{rf}:e:{n['seq']}" if k_ == 0 else f"{rf}:{a}-{b}x{k_}:{n['seq']}")
+        keys[n['id']] = k
+    ns = sorted(keys.values())
+    es = sorted(f"{keys[n['id']]}>{keys[o]}:{_ETYPE.get(t, t)}" for n in d['nodes'] for o, t in n['out_t'])
+    return 'N=' + ';'.join(ns) + '|E=' + ';'.join(es)
+
+
+def tvgbuild_case(rec: 'Rec', tx: dict, tx_fields: List[str], idmap: Dict[str, int]):
+    """(protocol line `G tvgbuild …`, canonical form of the real graph after create_variant_graph)
+    for a unit whose records are all small (SNV / RNAEditingSite / INDEL); None otherwise.
+    The transcript fields are those of the `cp` op; the records are the same as the `cp` op's
+    (`tx['vars']`, asserted as multisets) but in the ORDER the real `create_variant_graph`
+    received them: `sorted()` is stable and `VariantRecord.__lt__` leaves e.g. an SNV and an
+    insertion on the same base unordered, so the graph depends on that order (the on-disk pool of
+    the command and the in-memory pool of the harness loader sort such pairs differently)."""
+    d = rec.stages.get('tvg1')
+    given = getattr(rec, 'tvg_given', None)
+    if d is None or given is None:
+        return None
+    if any(v[4] not in SMALL_TYPES or isinstance(v[5], tuple) for v in tx['vars']) or \
+            any(v[4] not in SMALL_TYPES for v in given):
+        return None
+    idmap = dict(idmap)
+    vs = []
+    for (s, e, r, a, t, vid) in given:
+        vs.append(f'{s}:{e}:{r}:{a}:{t}:{idmap.setdefault(vid, len(idmap))}')
+    line = '\t'.join(['G', 'tvgbuild'] + tx_fields + ['1' if tx['orf'] else '0', ';'.join(vs)])
+    same = sorted(tuple(v) for v in given) == sorted(tuple(v) for v in tx['vars'])
+    return line, canon_tvg(d, idmap), same
 
 
 def dump_pvg(g) -> dict:
@@ -129,8 +188,14 @@ def capture(store: List[Rec]):
     def cvg(self, *a, **k):
         # nested calls (fusion / insertion subgraphs build their own ThreeFrameTVG) keep
         # their own record; only the outermost graph of a unit is checked
+        vs_in = k.get('variants', a[0] if a else [])
+        # the records in the order the real call receives them (before `to_end_inclusion`
+        # rewrites some of them in place)
+        given = [(int(v.location.start), int(v.location.end), str(v.ref), str(v.alt), v.type, v.id)
+                 for v in vs_in]
         res = o_cvg(self, *a, **k)
         r = rec_of(self)
+        r.tvg_given = given
         r.stages['tvg1'] = dump_tvg(self)
         r.tvg_args = {'n_variants': len(k.get('variants', a[0] if a else []))}
         return res
